@@ -17,6 +17,9 @@ KINDS = ["exactInt", "float", "complex", "str", "bool", "iterator", "indexable"]
 POSTS = ["asLen", "asHash", "lenNonzero", "asInt", "toFloat", "toComplex", "floorF", "ceilF", "truncInt", "truth"]
 
 
+NO_PROBE = object()
+
+
 class Foreign:
     """An object of a class no builtin slot knows (stands in for the proxy when probing C slots)."""
 
@@ -110,7 +113,7 @@ class Table:
             return "ni"
         return "v%d" % self.intern(x)
 
-    def slot(self, cls, dunder, probe_self=None):
+    def slot(self, cls, dunder, probe_self=NO_PROBE):
         """Resolve `dunder` on `cls` through the MRO; emit slot= token; -> (sid, attribute) or None"""
         for k in cls.__mro__:
             if dunder in k.__dict__:
@@ -125,7 +128,7 @@ class Table:
                     foreign = "b"
                 else:
                     foreign = "s"
-                    if probe_self is not None:
+                    if probe_self is not NO_PROBE:
                         try:
                             if getattr(cls, dunder)(probe_self, Foreign()) is NotImplemented:
                                 foreign = "d"
